@@ -66,7 +66,7 @@ def run(ctx: Ctx) -> None:
             exprs.append(("fc-heavy", e))
     cases = EC.rc_cases(ctx, exprs, ctx.pick(81, 243))
     EC.run_impl_and_model(ctx, cases, drv)
-    evalenv.configure_cer_based()
+    E.configure(ctx.rng)  # evaluators / providers suspend under a random schedule half of the time
     parse_cache = {}
     n_meaning = 0
     for c in cases:
